@@ -9,6 +9,7 @@ import Oracle.C01Ssa
 import Oracle.C01Front
 import Oracle.C01FrontX
 import Oracle.C01FrontMem
+import Oracle.C01FrontCF
 import Oracle.C02
 import Oracle.C03
 import Oracle.C04
@@ -80,6 +81,7 @@ def dispatch (st : State) (line : String) : State × String :=
   | "c01front" :: args => (st, (C01Front.step () args).2)
   | "c01frontx" :: args => (st, (C01FrontX.step () args).2)
   | "c01frontmem" :: args => (st, (C01FrontMem.step () args).2)
+  | "c01frontcf" :: args => (st, (C01FrontCF.step () args).2)
   | ["ping"] => (st, "pong")
   | _ => (st, "bad-op")
 
